@@ -58,6 +58,10 @@ def cases(tier, seed):
             # the classic pattern: expand fully, then all seeds
             if rng.random() < 0.25 or n["cls"].startswith("corpus"):
                 h = [["bfs", None, None, None], ["xseeds"]] + h
+            elif rng.random() < 0.3:
+                # raw (un-minified) candidates on a stub, then the exact symbolic filter has to work through all of them
+                k = rng.choice([0, 0, rng.randrange(64)])
+                h = [["cand", k, False, False], ["seeds", k, False], ["sets", k]] + h
             out.append({"net": n, "cls": n["cls"], "history": h, "config": rng.choice(CONFIGS), "rs": rng.randrange(1 << 30)})
     # large percolated networks (no oracle needed for this property): motif-avoidant core + long chain
     for i in range(12 if tier == "quick" else 60):
